@@ -1,7 +1,7 @@
 (* C02 — Listing addresses, symbol values and the emitted image agree. *)
 From V Require Import Base.
 From V.model Require Import MText MValues MOperands MProgram.
-From V.proofs Require Import PLayout PFrames PC02.
+From V.proofs Require Import PLayout PFrames PC02 PSize.
 From Coq Require String.
 Import String.StringSyntax.
 Local Open Scope N_scope.
@@ -50,18 +50,26 @@ Print Assumptions C02_undefined_symbol_rejected.
 Definition t (s : String.string) : text := text_of_string s.
 Local Open Scope string_scope.
 
-(* (f) THE FIRST AND THE LAST SENTENCE of the property, for every accepted program: loading the emitted image at
-   the reported origin (0 when no ORG precedes the code) places the bytes of every statement that has any at the
-   address the listing shows for it - whatever ORGs the program contains, because an ORG that would tear the
-   image apart is rejected (false upstream: code before ORG and later ORGs were accepted and the last ORG was
-   reported; repair F45).  Hypothesis: each statement's reserved size equals its emitted bytes, which is
-   property C12's count (proved there per operand class, checked by the oracle on every case). *)
+(* (f) THE FIRST AND THE LAST SENTENCE of the property, for every accepted program, WITHOUT ANY HYPOTHESIS: loading the
+   emitted image at the reported origin (0 when no ORG precedes the code) places the bytes of every statement that
+   has any at the address the listing shows for it - whatever ORGs the program contains, because an ORG that
+   would tear the image apart is rejected (false upstream: code before ORG and later ORGs were accepted and the
+   last ORG was reported; repair F45) - and (g) the space the listing reserves for a statement is exactly the
+   number of bytes it emits, for every operand class, label and PC-relative operands included (proofs/PSize.v:
+   an invariant established by translate() predicts how wide the operand field will be after the size loop and
+   fix_addresses; the table's sizes, data flags and post-byte tables are checked by reflection on the regenerated
+   tables). *)
+Theorem C02_reserved_size_is_emitted_bytes :
+  forall fm lines r, assemble fm lines = Ok r ->
+    Forall (fun s => r_size s = N.of_nat (length (r_bytes s))) (r_stmts r).
+Proof. exact statement_size_is_bytes. Qed.
+Print Assumptions C02_reserved_size_is_emitted_bytes.
+
 Theorem C02_image_loads_at_origin :
   forall fm lines r, assemble fm lines = Ok r ->
-    Forall (fun s => r_size s = N.of_nat (length (r_bytes s))) (r_stmts r) ->
     forall k s, nth_error (r_stmts r) k = Some s -> r_bytes s <> [] ->
       r_addr s = origin_value r + N.of_nat (length (concat (map r_bytes (firstn k (r_stmts r))))).
-Proof. exact image_loads_at_origin. Qed.
+Proof. intros fm lines r H. exact (image_loads_at_origin fm lines r H (statement_size_is_bytes fm lines r H)). Qed.
 Print Assumptions C02_image_loads_at_origin.
 
 (* a program with code before its ORG is rejected *)
